@@ -200,7 +200,7 @@ CODE = """
     }
     #[kani::proof] #[kani::unwind(16)] fn g8_temp_image_u8x3() { temp_image::<U8x3>(2, 1) }
     #[kani::proof] #[kani::unwind(16)] fn g8_temp_image_u16x2() { temp_image::<U16x2>(1, 2) }
-    #[kani::proof] #[kani::unwind(24)] fn g8_temp_image_f32x4() { temp_image::<F32x4>(1, 1) }
+    #[kani::proof] #[kani::unwind(20)] fn g8_temp_image_f32x2() { temp_image::<F32x2>(1, 1) }
     #[kani::proof] #[kani::unwind(16)] fn g8_temp_image_zero() { temp_image::<U16x4>(0, 3) }
 
     // ---------------------------------------------------------------- C11 / C05: whole resample_nearest
@@ -380,20 +380,18 @@ PLAN = """
     #[kani::stub(crate::convolution::precompute_coefficients, crate::convolution::fv_formm::fv_stub_precompute_coefficients_rec)]
     #[kani::stub(crate::convolution::optimisations::Normalizer16::new, crate::convolution::optimisations::fv_nstub::fv_stub_normalizer16_new_identity)]
     fn c07_alpha_path_u8x2_interpolation() {
-        // source 3x3 U8x2, crop (0, 0, 3, 2) that does NOT reach the bottom edge, destination 2x2: horizontal pass only.
-        // With the identity stand-in tables destination pixel x is divide(premultiply(source pixel 0 of its row)).
-        let sp: [u8; 18] = kani::any();
-        let src: [U8x2; 9] = [U8x2::new([sp[0], sp[1]]), U8x2::new([sp[2], sp[3]]), U8x2::new([sp[4], sp[5]]), U8x2::new([sp[6], sp[7]]),
-                              U8x2::new([sp[8], sp[9]]), U8x2::new([sp[10], sp[11]]), U8x2::new([sp[12], sp[13]]), U8x2::new([sp[14], sp[15]]),
-                              U8x2::new([sp[16], sp[17]])];
-        let mut dst = [U8x2::new([9, 9]); 5];
-        let opts = ResizeOptions::new().resize_alg(ResizeAlg::Interpolation(FilterType::Bilinear)).crop(0.0, 0.0, 3.0, 2.0);
-        // scratch buffers pre-sized (Vec::resize is a 20-iteration loop that would force a large global unwinding bound) with arbitrary content
+        // source 2x2 U8x2, crop (0, 0, 2, 1) that does NOT reach the bottom edge, destination 1x1: horizontal pass only.
+        // With the identity stand-in tables the destination pixel is divide(premultiply(source pixel 0)).
+        let sp: [u8; 8] = kani::any();
+        let src: [U8x2; 4] = [U8x2::new([sp[0], sp[1]]), U8x2::new([sp[2], sp[3]]), U8x2::new([sp[4], sp[5]]), U8x2::new([sp[6], sp[7]])];
+        let mut dst = [U8x2::new([9, 9]); 2];
+        let opts = ResizeOptions::new().resize_alg(ResizeAlg::Interpolation(FilterType::Bilinear)).crop(0.0, 0.0, 2.0, 1.0);
+        // scratch buffers pre-sized (Vec::resize is a loop that would force a large global unwinding bound) with arbitrary content
         let junk: u8 = kani::any();
-        let mut r = fv_resizer(vec![junk; 24], vec![junk; 24], Vec::new());
+        let mut r = fv_resizer(vec![junk; 12], vec![junk; 12], Vec::new());
         {
-            let s = TypedImageRef::new(3, 3, &src).unwrap();
-            let mut d = TypedImage::from_pixels_slice(2, 2, &mut dst).unwrap();
+            let s = TypedImageRef::new(2, 2, &src).unwrap();
+            let mut d = TypedImage::from_pixels_slice(1, 1, &mut dst).unwrap();
             assert!(r.resize_typed(&s, &mut d, &opts).is_ok());
         }
         // the kernel mode requested by the caller (Interpolation = fixed kernel) reaches the table computation on the alpha path
@@ -402,13 +400,10 @@ PLAN = """
             assert!(crate::convolution::fv_formm::FV_TABLE_ADAPTIVE[0] == false);
         }
         kani::cover!(sp[1] == 0 && sp[0] != 0);
-        // row 0 of the destination comes from source row 0, pixel 0; row 1 from source row 1, pixel 0 (pixel 3)
-        for (d0, a, c) in [(0usize, sp[1], sp[0]), (2usize, sp[7], sp[6])] {
-            assert!(dst[d0].0[1] == a);                                   // alpha resampled as a plain channel (identity taps)
-            if a == 0 { assert!(dst[d0].0[0] == 0); }                     // transparent: colour 0 whatever was stored
-            if a == 255 { assert!(dst[d0].0[0] == c); }                   // opaque: as with alpha handling off
-        }
-        assert!(dst[4].0 == [9, 9]);
+        assert!(dst[0].0[1] == sp[1]);                                   // alpha resampled as a plain channel (identity taps)
+        if sp[1] == 0 { assert!(dst[0].0[0] == 0); }                     // transparent: colour 0 whatever was stored
+        if sp[1] == 255 { assert!(dst[0].0[0] == sp[0]); }               // opaque: as with alpha handling off
+        assert!(dst[1].0 == [9, 9]);
     }
 
     #[kani::proof]
@@ -508,7 +503,7 @@ UNIT = dict(
                  bound="src 3x2 U8, dst 2x1, EVERY f64 crop box accepted by crop()", claim="copy_image: Ok <=> integral crop of the dst size; Ok => exact region; Err => dst untouched"),
             dict(name="g8_temp_image_u8x3", kind="bounded", timeout=900, props=["C09", "C03"], bound="buffer of any length <= 12 (capacity 16) and any content, image 2x1 U8x3", claim="scratch image has the requested size, exactly w*h pixels, aligned; buffer only grows"),
             dict(name="g8_temp_image_u16x2", kind="bounded", timeout=900, tier="thorough", props=["C09", "C03"], bound="buffer <= 12 bytes, image 1x2 U16x2", claim="same"),
-            dict(name="g8_temp_image_f32x4", kind="bounded", timeout=900, props=["C09", "C03"], bound="buffer <= 12 bytes, image 1x1 F32x4", claim="same"),
+            dict(name="g8_temp_image_f32x2", kind="bounded", timeout=900, props=["C09", "C03"], bound="buffer <= 12 bytes, image 1x1 F32x2 (8-byte pixel, alignment 4)", claim="same"),
             dict(name="g8_temp_image_zero", kind="bounded", timeout=900, props=["C09", "C03"], bound="buffer <= 12 bytes, image 0x3 U16x4", claim="same for an empty image"),
             dict(name="c11_nearest_whole_3x2_to_2x2", kind="bounded", timeout=1500, props=["C11", "C05", "C13", "C03"],
                  bound="src 3x2 U8x2, every integer crop, dst 2x2 cropped view at (1,1) of a 4x4 parent",
@@ -519,7 +514,7 @@ UNIT = dict(
             dict(name="k8_plan_fractional_top", kind="bounded", timeout=1500, props=["C12", "C01"], bound="U8 3x3, crop (0, 0.5, 3, 2) -> 2x2", claim="a fractional crop top forces the vertical pass even when the height matches"),
             dict(name="k8_plan_both_passes", kind="bounded", timeout=1500, props=["C01", "C12"], bound="U8 3x2 -> 2x1", claim="both tables are computed: horizontal from the source width, vertical from the source height"),
             dict(name="c07_alpha_path_u8x2_interpolation", kind="bounded", covers=1, timeout=2400, props=["C07"],
-                 bound="U8x2 3x3, crop (0,0,3,2) -> 2x2, Interpolation, identity stand-in tables, all contents",
+                 bound="U8x2 2x2, crop (0,0,2,1) -> 1x1, Interpolation, identity stand-in tables, all contents",
                  claim="the alpha path is taken: transparent source pixels give colour 0, opaque ones are unchanged, alpha is a plain channel; the "
                        "fixed-kernel mode of Interpolation reaches the table computation; spare pixel untouched"),
             dict(name="c09_set_cpu_extensions_reaches_both_stages", kind="complete", timeout=300, props=["C09", "C02"],
